@@ -594,6 +594,40 @@ func (*Parser).parseJoin
   loop 2 invariant aliasTok.Type != TokenAS && !(aliasTok.Type == TokenIdent && !isClauseBoundaryIdent(aliasTok.Value)) ==> jc.Alias == jc.Table
   loop 2 decreases len(p.lexer.input) - p.lexer.pos
 
+// splitting of an argument list text: a comma separates only at parenthesis depth 0, and nothing inside a quoted literal
+// counts (qst2 / pdepth: quote state and parenthesis depth after n bytes; the scan skips literals whole)
+recfunc sq2((s Str) (n Int)) Int := (ite (<= n 0) 0 (let ((q (@sq2 s (- n 1))) (c (gs.at s (- n 1)))) (ite (not (= q 0)) (ite (= c q) 0 q) (ite (or (= c 39) (= c 34)) c 0))))
+recfunc sdepth((s Str) (n Int)) Int := (ite (<= n 0) 0 (let ((d (@sdepth s (- n 1))) (q (@sq2 s (- n 1))) (c (gs.at s (- n 1)))) (ite (not (= q 0)) d (ite (= c 40) (+ d 1) (ite (= c 41) (- d 1) d)))))
+
+func splitTopLevelCommas
+  props C11 C14
+  option safety
+  loop 1 invariant 0 <= last && last <= i && last <= len(s) && i <= len(s) + 1
+  loop 1 invariant i <= len(s) ==> sq2(s, i) == 0
+  loop 1 invariant i <= len(s) ==> depth == sdepth(s, i)
+  loop 1 decreases len(s) + 1 - i
+  loop 2 invariant 0 <= last && last <= i && last <= len(s) && i <= len(s) && sq2(s, i) == 34 && depth == sdepth(s, i)
+  loop 2 decreases len(s) - i
+  loop 3 invariant 0 <= last && last <= i && last <= len(s) && i <= len(s) && sq2(s, i) == 39 && depth == sdepth(s, i)
+  loop 3 decreases len(s) - i
+
+// OVER clause extraction from expression text (WHERE analytic calls): totality
+func skipSpaces
+  props C11 C14
+  option safety
+  requires i >= 0
+  ensures result >= old(i) && (old(i) <= len(s) ==> result <= len(s))
+  loop 1 invariant i >= old(i) && (old(i) <= len(s) ==> i <= len(s))
+  loop 1 decreases len(s) - i
+
+func parseOverFromString
+  props C11 C14
+  option safety
+  requires pos >= 0 && pos <= len(s)
+  modifies *
+  loop 1 invariant after + 1 <= k && k <= len(s) && bodyStart == after + 1 && after < len(s)
+  loop 1 decreases 2 * (len(s) - k) + ite(depth > 0, 1, 0)
+
 func collapseSpacesOutsideQuotes
   props C11 C01 C04 C07 C14
   option safety
